@@ -15,7 +15,7 @@ ARGCLASSES = ['ok', 'ok', 'ok', 'missing', 'dot', 'badutf8', 'untrashable',
 def config(tier):
     return {
         'level': 'exploration',
-        'cases': 450 if tier == 'quick' else 40000,
+        'cases': 1800 if tier == 'quick' else 40000,
         'budget_s': 55 if tier == 'quick' else 560,
         'floors': {'cases': 150, 'args_compared_alone': 500,
                    'lists_with_failure': 80, 'lists_all_ok': 20,
